@@ -41,6 +41,30 @@ print(json.dumps({"violates": (got != "reject") != ok, "observed": got, "require
 '''
 
 
+REPLAY_PARTIAL = r'''
+import ast
+from guppylang_internals.checker.expr_checker import python_value_to_guppy_type
+from guppylang_internals.tys.builtin import nat_type
+from guppylang_internals.tys.ty import TupleType, ExistentialTypeVar, NumericType
+from guppylang_internals.error import GuppyError
+I = INPUT
+node = ast.parse("x").body[0].value
+node.file, node.source, node.line_offset = "<verif>", "x", 1
+x0, x1 = I["value"]
+hint = TupleType([nat_type(), ExistentialTypeVar.fresh("T", True, True)])
+try:
+    ty = python_value_to_guppy_type((x0, x1), node, None, hint)
+    got = "accept:" + str(ty)
+    k0 = ty.element_types[0].kind.name
+except GuppyError as e:
+    got, k0 = "reject", None
+in_int = lambda n: -(1 << 63) <= n <= (1 << 63) - 1
+ok = (0 <= x0 <= (1 << 64) - 1 or in_int(x0)) and in_int(x1)
+want0 = None if not ok else ("Nat" if x0 >= 0 else "Int")
+print(json.dumps({"violates": (got != "reject") != ok or k0 != want0, "observed": got, "required": ("accept with first component " + str(want0)) if ok else "reject", "value": str(I["value"]), "hint": "tuple[nat, ?T]"}))
+'''
+
+
 def node_stub(it):
     return ast_from_source(it, "x", "eval").fields["body"]
 
@@ -172,6 +196,32 @@ def run(chk):
                             func=EC + ":_python_list_to_guppy_type" if shape == "list" else EC + ":python_value_to_guppy_type",
                             replay=lambda m, n=n, shape=shape: {"script": REPLAY_TY, "input": {"hint": "none", "tuple": shape == "tuple",
                                                                                                "value": [model_val(m, x) for x in xs[:n]]}})
+
+    # ---- a hint that is only partly known (tuple[nat, ?T], the parameter type of a generic callee
+    # before its variables are solved) is still honoured where it is known: the nat component is typed
+    # nat over [0, 2^64-1], the undetermined one falls back to the default int over int64
+    def t_partial(it):
+        m = e.module(EC)
+        tm = e.module("guppylang_internals.tys.ty")
+        ex = it.call(it.getattr(it.lookup_global(tm, "ExistentialTypeVar"), "fresh"), ["T", True, True], {})
+        hint = it.call(it.lookup_global(tm, "TupleType"), [[it.call(it.lookup_global(m, "nat_type"), [], {}), ex]], {})
+        return it.call(it.lookup_global(m, "python_value_to_guppy_type"), [(SInt(xs[0]), SInt(xs[1])), node_stub(it), None, hint], {})
+    paths = e.explore(t_partial)
+    x0_nat, x1_int = z3.And(xs[0] >= 0, xs[0] <= NMAX), z3.And(xs[1] >= IMIN, xs[1] <= IMAX)
+    x0_int = z3.And(xs[0] >= IMIN, xs[0] <= IMAX)
+
+    def post_partial(p):
+        ok = z3.And(z3.Or(x0_nat, x0_int), x1_int)
+        if p.kind == "raise":
+            return z3.And(z3.Not(ok), z3.BoolVal(p.raised(e, "GuppyTypeError")))
+        ty = p.value
+        if not (isinstance(ty, SObj) and ty.cls.name == "TupleType"):
+            return z3.BoolVal(False)
+        k0, k1 = (kind_of(t) for t in ty.fields["element_types"])
+        return z3.And(ok, z3.BoolVal(k1 == "Int"), x0_nat if k0 == "Nat" else z3.And(z3.BoolVal(k0 == "Int"), xs[0] < 0))
+    chk.prove_paths("python_value_to_guppy_type((x0,x1),hint=tuple[nat,?T]):x0-typed-nat<=>0<=x0<2^64;x1-int", paths, post_partial,
+                    func=EC + ":python_value_to_guppy_type",
+                    replay=lambda m: {"script": REPLAY_PARTIAL, "input": {"value": [model_val(m, xs[0]), model_val(m, xs[1])]}})
 
     # ---- negative literal folding: USub(Constant(v)) -> Constant(-v), nothing else folded
     def t_fold(it):
